@@ -234,7 +234,86 @@ class History:
     OPS = ['ctor_vec', 'ctor_ang', 'ctor_mat', 'from_str', 'with_axes', 'set_vec', 'set_ang', 'iop_vec', 'imul_ang',
            'imatmul', 'matmul', 'transform_vec', 'transform_ang', 'to_angle', 'vec_to_angle', 'from_basis', 'arith',
            'copies', 'freeze_thaw', 'text', 'mat_ops', 'ang_mul', 'rotate_legacy', 'set_mat', 'tiny_rot', 'gimbal_cancel',
-           'frozen_assign', 'identity_ops']
+           'frozen_assign', 'identity_ops', 'multi_results']
+
+    def op_multi_results(self):
+        """Calls that hand out several vectors at once (bbox corners, grid and line points, divmod): every result is a new
+        object, independent of the other results and of the arguments, whatever the number of points."""
+        sm, rng = self.sm, self.rng
+        cls = rng.choice((sm.Vec, sm.FrozenVec))
+        how = rng.choice(('bbox', 'bbox', 'iter_grid', 'iter_line', 'divmod'))
+        small = lambda: float(rng.randint(-3, 3))
+        if how == 'bbox':
+            pts = [rng.choice((sm.Vec, sm.FrozenVec))(num(rng), num(rng), num(rng)) for _ in range(rng.choice((1, 1, 2, 2, 3, 4)))]
+            if rng.random() < 0.2:
+                pts.append(pts[0])  # the same point object named twice
+            form = rng.choice(('args', 'list', 'iter', 'tuple'))
+            args = {'args': pts, 'list': [list(pts)], 'iter': [iter(pts)], 'tuple': [tuple(pts)]}[form]
+            res = list(cls.bbox(*args))
+            want = [tuple(min(p[i] for p in pts) for i in range(3)), tuple(max(p[i] for p in pts) for i in range(3))]
+            if [self.raw(r) for r in res] != [tuple(w) for w in want] and not any(v != v for p in pts for v in self.raw(p)):
+                self.fail(f'{cls.__name__}.bbox of {len(pts)} point(s) given as {form} is {[self.raw(r) for r in res]}', 'bbox-value',
+                          {'points': [self.raw(p) for p in pts], 'want': want})
+                return
+            inputs = pts
+            how = f'bbox({len(pts)} points as {form})'
+        elif how == 'iter_grid':
+            a = sm.Vec(small(), small(), small())
+            b = a + (rng.randint(0, 2), rng.randint(0, 2), rng.randint(0, 1))
+            stride = rng.choice((1, 1, 2))
+            res = list(cls.iter_grid(a, b, stride))
+            want_n = 1
+            for i in range(3):
+                want_n *= len(range(round(a[i]), round(b[i]) + 1, stride))
+            if len(res) != want_n or self.raw(res[0]) != self.raw(a):
+                self.fail(f'iter_grid({self.raw(a)}, {self.raw(b)}, {stride}) gave {len(res)} points starting at '
+                          f'{self.raw(res[0]) if res else None}, expected {want_n}', 'grid-value')
+                return
+            if len({self.raw(r) for r in res}) != len(res):
+                self.fail(f'iter_grid({self.raw(a)}, {self.raw(b)}, {stride}) yields the same position twice', 'grid-value',
+                          {'points': [self.raw(r) for r in res]})
+                return
+            inputs = [a, b]
+        elif how == 'iter_line':
+            a = cls(small(), small(), small())
+            b = rng.choice((sm.Vec, sm.FrozenVec))(*(a + rng.choice(((0, 0, 0), (0.5, 0, 0), (4, 0, 0), (0, -3, 0), (2, 2, 1)))))
+            res = list(a.iter_line(b, rng.choice((1, 1, 2, 5))))
+            if not res or self.raw(res[0]) != self.raw(a) or self.raw(res[-1]) != self.raw(b):
+                self.fail(f'iter_line from {self.raw(a)} to {self.raw(b)} does not run from end to end: {[self.raw(r) for r in res]}',
+                          'line-value')
+                return
+            inputs = [a, b]
+        else:
+            a = cls(num(rng), num(rng), num(rng))
+            d = rng.choice((1.0, 2.0, 0.5, 3.25, -2.0))
+            res = list(divmod(a, d))
+            want = list(zip(*(divmod(v, d) for v in self.raw(a))))
+            if [self.raw(r) for r in res] != [tuple(w) for w in want] and not any(v != v or abs(v) == float('inf') for v in self.raw(a)):
+                self.fail(f'divmod({self.raw(a)}, {d}) is {[self.raw(r) for r in res]}', 'divmod-value', {'want': want})
+                return
+            inputs = [a]
+        self.run.count('multi_result_calls_checked')
+        for r in res:
+            if type(r) is not cls:
+                self.fail(f'{how} on {cls.__name__} returned a {type(r).__name__}', 'result-type')
+                return
+        if cls is sm.Vec:
+            for i, r in enumerate(res):
+                if any(r is q for q in res[:i]) or any(r is q for q in inputs):
+                    self.fail(f'{how}: result {i} is the same object as another result or an argument', 'results-alias-each-other',
+                              {'results': [self.raw(q) for q in res]})
+                    return
+            before_in = [self.raw(q) for q in inputs]
+            for i, r in enumerate(res[:6]):
+                others = [self.raw(q) for j, q in enumerate(res) if j != i]
+                self.mutate(r)
+                if [self.raw(q) for j, q in enumerate(res) if j != i] != others or [self.raw(q) for q in inputs] != before_in:
+                    self.fail(f'{how}: editing result {i} in place changed another result or an argument', 'results-alias-each-other',
+                              {'results': [self.raw(q) for q in res]})
+                    return
+        self.log.append(f'{how} on {cls.__name__}')
+        for r in res[:2]:
+            self.add(r)
 
     def op_identity_ops(self):
         """Operators with a neutral right operand (zero vector, factor 1, the zero rotation, the identity matrix - also spelled
@@ -826,4 +905,4 @@ def replay(run, data) -> None:
 
 
 # (kept at the end of the file so that the text above stays the description the check was first built to)
-RULE += ' ' + 'Later additions: library ==, != (both directions) and hash() on every copy / freeze / thaw; text forms also through format() and f-strings and for magnitudes above 1e12.'
+RULE += ' ' + 'Later additions: library ==, != (both directions) and hash() on every copy / freeze / thaw; text forms also through format() and f-strings and for magnitudes above 1e12. Calls that hand out several vectors at once (bbox corners for 1-4 points in every delivery form, iter_grid, iter_line, divmod) give results that are new objects, independent of one another and of the arguments, with the values of a direct min/max/divmod model.'
